@@ -4,3 +4,4 @@ import Spade.Properties.C11
 #print axioms Spade.C11_remove_constraints
 #print axioms Spade.C05_remove_keeps_others
 #print axioms Spade.C05_remove_moves_last
+#print axioms Spade.C11_model_remove_is_swap_remove
